@@ -42,6 +42,26 @@ Definition apply_metric (array : list Z) (m : Z) : option (list (option Z * Z)) 
        | None => None
        end.
 
+(* apply_to_melody(expand=False): the melody is not repeated; it is padded with rests up to sum(array) elements, and the loop stops
+   at an entry whose index exceeds the padded length.  Some j = the melody's note j, None = a rest (a padding rest included) *)
+Definition zsum (l : list Z) : Z := fold_right Z.add 0 l.
+Fixpoint apply_groups_ne (m m' idx : Z) (first_has_note : bool) (gs : list (bool * Z)) : list (option Z * Z) :=
+  match gs with
+  | [] => []
+  | (has_note, k) :: r =>
+      if (idx =? 0) && negb first_has_note then (None, k) :: apply_groups_ne m m' (idx + 1) first_has_note r
+      else if m' <? idx then []                                      (* break *)
+      else ((if has_note then (let j := idx mod m' in if j <? m then Some j else None) else None), k)
+           :: apply_groups_ne m m' (idx + 1) first_has_note r
+  end.
+
+Definition apply_metric_ne (array : list Z) (m : Z) : option (list (option Z * Z)) :=
+  if m <=? 0 then None
+  else match beat_durations array with
+       | Some (gs, f) => Some (apply_groups_ne m (Z.max m (zsum array)) 0 f gs)
+       | None => None
+       end.
+
 Definition complementary (a : list Z) : list Z := map (fun x => 1 - x) a.
 Definition reversed (a : list Z) : list Z := rev a.
 Definition circular_shift (a : list Z) (n : Z) : list Z :=
@@ -95,6 +115,8 @@ Definition bjorklund (steps pulses : Z) : option (list Z) :=
 Definition entry_eqb (a b : option Z * Z) : bool := option_eqb Z.eqb (fst a) (fst b) && (snd a =? snd b).
 Definition check_apply (x : list Z * Z * option (list (option Z * Z))) : bool :=
   let '(a, m, r) := x in option_eqb (list_eqb entry_eqb) (apply_metric a m) r.
+Definition check_apply_ne (x : list Z * Z * option (list (option Z * Z))) : bool :=
+  let '(a, m, r) := x in option_eqb (list_eqb entry_eqb) (apply_metric_ne a m) r.
 Definition check_bjorklund (x : Z * Z * option (list Z)) : bool :=
   let '(s, p, r) := x in option_eqb (list_eqb Z.eqb) (bjorklund s p) r.
 Definition check_algebra (x : list Z * Z * (list Z * list Z * list Z)) : bool :=
